@@ -11,6 +11,7 @@ import RuxModel.Model.Chain
   5. the writer fold.
 -/
 namespace Rux.Chain
+set_option linter.unusedSimpArgs false
 
 /-! ### 1. the loop computes the onion -/
 
@@ -436,5 +437,472 @@ theorem splitNext_none : ∀ (h : List Act), splitNext h = none → (flat i fals
         rcases hx with rfl | hx
         · exact ⟨hn, ha'⟩
         · exact ih hs hf x hx
+
+/-! ### 4. what an accepted trace looks like -/
+
+theorem check_split {s s' : CSt} {pre post : List Ev} {e : Ev}
+    (h : check s (pre ++ e :: post) = some s') :
+    ∃ s1 s2, check s pre = some s1 ∧ checkStep s1 e = some s2 ∧ check s2 post = some s' := by
+  rw [check_append] at h
+  cases h1 : check s pre with
+  | none => simp [h1] at h
+  | some s1 =>
+    simp only [h1, Option.bind_some, check] at h
+    cases h2 : checkStep s1 e with
+    | none => simp [h2] at h
+    | some s2 => simp only [h2] at h; exact ⟨s1, s2, rfl, h2, h⟩
+
+theorem checkStep_ab {s s' : CSt} {e : Ev} (h : checkStep s e = some s') :
+    s'.ab = (s.ab || e.isAbort) := by
+  cases e <;> simp only [checkStep] at h
+  case leave j =>
+    cases hst : s.stack with
+    | nil => simp [hst] at h
+    | cons top below =>
+      simp only [hst] at h
+      split at h
+      · simp only [Option.some.injEq] at h; subst h; simp [Ev.isAbort]
+      · simp at h
+  all_goals
+    split at h
+    · simp only [Option.some.injEq] at h; subst h; simp_all [Ev.isAbort]
+    · simp at h
+
+theorem check_ab {s s' : CSt} {tr : List Ev} (h : check s tr = some s') :
+    s'.ab = (s.ab || tr.any Ev.isAbort) := by
+  induction tr generalizing s with
+  | nil => simp only [check, Option.some.injEq] at h; subst h; simp
+  | cons e rest ih =>
+    simp only [check] at h
+    cases h1 : checkStep s e with
+    | none => simp [h1] at h
+    | some s1 =>
+      simp only [h1] at h
+      rw [ih h, checkStep_ab h1]
+      simp [Bool.or_assoc]
+
+/-- after an abort, the validator accepts no `enter` any more -/
+theorem check_no_enter {s s' : CSt} {tr : List Ev} (h : check s tr = some s') (hab : s.ab = true) :
+    ∀ j, Ev.enter j ∉ tr := by
+  induction tr generalizing s with
+  | nil => intro j; simp
+  | cons e rest ih =>
+    intro j hmem
+    simp only [check] at h
+    cases h1 : checkStep s e with
+    | none => simp [h1] at h
+    | some s1 =>
+      simp only [h1] at h
+      have hab1 : s1.ab = true := by rw [checkStep_ab h1, hab]; simp
+      simp only [List.mem_cons] at hmem
+      rcases hmem with rfl | hmem
+      · simp [checkStep, hab] at h1
+      · exact ih h hab1 j hmem
+
+theorem checkStep_nxt {s s' : CSt} {e : Ev} (h : checkStep s e = some s') :
+    (e = .enter s.nxt ∧ s'.nxt = s.nxt + 1) ∨ (e.isEnter = false ∧ s'.nxt = s.nxt) := by
+  cases e <;> simp only [checkStep] at h
+  case leave j =>
+    cases hst : s.stack with
+    | nil => simp [hst] at h
+    | cons top below =>
+      simp only [hst] at h
+      split at h
+      · simp only [Option.some.injEq] at h; subst h; simp [Ev.isEnter]
+      · simp at h
+  case enter j =>
+    split at h
+    · rename_i hc
+      simp only [Option.some.injEq] at h; subst h; left; simp [hc.2]
+    · simp at h
+  all_goals
+    split at h
+    · simp only [Option.some.injEq] at h; subst h; simp [Ev.isEnter]
+    · simp at h
+
+/-- handlers start in list order, without gaps and without repetition -/
+theorem check_enters {s s' : CSt} {tr : List Ev} (h : check s tr = some s') :
+    s.nxt ≤ s'.nxt ∧ enters tr = List.range' s.nxt (s'.nxt - s.nxt) := by
+  induction tr generalizing s with
+  | nil => simp only [check, Option.some.injEq] at h; subst h; simp [enters]
+  | cons e rest ih =>
+    simp only [check] at h
+    cases h1 : checkStep s e with
+    | none => simp [h1] at h
+    | some s1 =>
+      simp only [h1] at h
+      obtain ⟨hle, hen⟩ := ih h
+      rcases checkStep_nxt h1 with ⟨rfl, hn⟩ | ⟨hne, hn⟩
+      · refine ⟨by omega, ?_⟩
+        simp only [enters, hen, hn]
+        have : s'.nxt - s.nxt = (s'.nxt - (s.nxt + 1)) + 1 := by omega
+        rw [this, List.range'_succ]
+      · refine ⟨by omega, ?_⟩
+        rw [← hn, ← hen]
+        cases e <;> simp_all [enters, Ev.isEnter]
+
+/-- the validator's stack discipline is `nest` -/
+theorem check_nest {s s' : CSt} {tr : List Ev} (h : check s tr = some s') :
+    nest s.stack tr = some s'.stack := by
+  induction tr generalizing s with
+  | nil => simp only [check, Option.some.injEq] at h; subst h; simp [nest]
+  | cons e rest ih =>
+    simp only [check] at h
+    cases h1 : checkStep s e with
+    | none => simp [h1] at h
+    | some s1 =>
+      simp only [h1] at h
+      have := ih h
+      cases e <;> simp only [checkStep] at h1
+      case enter j =>
+        split at h1
+        · simp only [Option.some.injEq] at h1; subst h1; simpa [nest] using this
+        · simp at h1
+      case leave j =>
+        cases hst : s.stack with
+        | nil => simp [hst] at h1
+        | cons top below =>
+          simp only [hst] at h1
+          split at h1
+          · rename_i hc
+            simp only [Option.some.injEq] at h1; subst h1
+            simpa [nest, hc] using this
+          · simp at h1
+      all_goals
+        split at h1
+        · rename_i hc
+          simp only [Option.some.injEq] at h1; subst h1
+          first
+            | simpa [nest, Ev.handler, hc] using this
+            | simpa [nest, Ev.handler, hc.1] using this
+        · simp at h1
+
+/-! ### 5. the events of one handler -/
+
+theorem flat_handler (i : Nat) : ∀ (acts : List Act) (ab : Bool), ∀ e ∈ (flat i ab acts).1, e.handler = i := by
+  intro acts
+  induction acts with
+  | nil => intro ab e he; simp [flat] at he
+  | cons a rest ih =>
+    intro ab e he
+    simp only [flat, List.mem_append] at he
+    rcases he with he | he
+    · cases a <;> simp [ownEv] at he <;> (try rcases he with rfl | rfl | rfl) <;> simp_all [Ev.handler]
+    · exact ih _ e he
+
+theorem ownEv_erase (i : Nat) (ab : Bool) (a : Act) :
+    (ownEv i ab a).1.map Ev.erase = (ownEv i false a).1.map Ev.erase := by
+  cases a <;> simp [ownEv, Ev.erase]
+
+theorem flat_erase (i : Nat) : ∀ (acts : List Act) (ab : Bool),
+    (flat i ab acts).1.map Ev.erase = shape i acts := by
+  intro acts
+  induction acts with
+  | nil => intro ab; simp [flat, shape]
+  | cons a rest ih =>
+    intro ab
+    simp only [flat, shape, List.map_append]
+    rw [ih, ih, ownEv_erase]
+
+theorem flat_append (i : Nat) : ∀ (x y : List Act) (ab : Bool),
+    flat i ab (x ++ y) = ((flat i ab x).1 ++ (flat i (flat i ab x).2 y).1, (flat i (flat i ab x).2 y).2) := by
+  intro x
+  induction x with
+  | nil => intro y ab; simp [flat]
+  | cons a rest ih => intro y ab; simp [flat, ih, List.append_assoc]
+
+theorem shape_split (i : Nat) (pre post : List Act) :
+    shape i (pre ++ .next :: post) = shape i pre ++ shape i post := by
+  have h1 := flat_append i pre (.next :: post) false
+  simp only [shape, h1, List.map_append]
+  congr 1
+  simp only [flat, ownEv, List.nil_append]
+  rw [flat_erase, shape]
+
+theorem proj_append (j : Nat) (a b : List Ev) : proj j (a ++ b) = proj j a ++ proj j b := by
+  simp [proj]
+
+theorem proj_flat_self (i : Nat) (ab : Bool) (acts : List Act) :
+    proj i (flat i ab acts).1 = (flat i ab acts).1 := by
+  simp only [proj, List.filter_eq_self]
+  intro e he; simp [flat_handler i acts ab e he]
+
+theorem proj_flat_other (i j : Nat) (hne : i ≠ j) (ab : Bool) (acts : List Act) :
+    proj j (flat i ab acts).1 = [] := by
+  simp only [proj, List.filter_eq_nil_iff]
+  intro e he; simp [flat_handler i acts ab e he, hne]
+
+/-- every event of the onion of handlers `i, i+1, …` belongs to one of them -/
+theorem onion_handler_ge : ∀ (hs : List Handler) (i : Nat), ∀ e ∈ (onion i hs).1, i ≤ e.handler := by
+  intro hs
+  induction hs with
+  | nil => intro i e he; simp [onion] at he
+  | cons h rest ih =>
+    intro i e he
+    rw [onion_cons] at he
+    have hR : ∀ e ∈ (onion (i + 1) rest).1, i ≤ e.handler := fun e he => by have := ih (i + 1) e he; omega
+    have hF : ∀ ab acts, ∀ e ∈ (flat i ab acts).1, i ≤ e.handler := fun ab acts e he => by
+      rw [flat_handler i acts ab e he]; exact Nat.le_refl _
+    simp only [onionStep] at he
+    split at he
+    · simp only [List.mem_append, List.mem_cons, List.not_mem_nil, or_false] at he
+      rcases he with (((rfl | he) | he) | he) | rfl
+      · simp [Ev.handler]
+      · exact hF _ _ e he
+      · exact hR e he
+      · exact hF _ _ e he
+      · simp [Ev.handler]
+    · split at he
+      · simp only [List.mem_append, List.mem_cons, List.not_mem_nil, or_false] at he
+        rcases he with (rfl | he) | rfl
+        · simp [Ev.handler]
+        · exact hF _ _ e he
+        · simp [Ev.handler]
+      · simp only [List.mem_append, List.mem_cons, List.not_mem_nil, or_false] at he
+        rcases he with ((rfl | he) | rfl) | he
+        · simp [Ev.handler]
+        · exact hF _ _ e he
+        · simp [Ev.handler]
+        · exact hR e he
+
+theorem proj_nil_of_lt (hs : List Handler) (i j : Nat) (h : j < i) : proj j (onion i hs).1 = [] := by
+  simp only [proj, List.filter_eq_nil_iff]
+  intro e he
+  have := onion_handler_ge hs i e he
+  simp; omega
+
+/-- The events of handler `j` in an onion trace: none at all (it never started), or `enter j`, every one
+    of its actions exactly once in order, `leave j` -/
+theorem proj_onion : ∀ (hs : List Handler) (i j : Nat),
+    proj j (onion i hs).1 = [] ∨
+      ∃ h, hs[j - i]? = some h ∧ i ≤ j ∧
+        (proj j (onion i hs).1).map Ev.erase = [Ev.enter j] ++ shape j h ++ [.leave j] := by
+  intro hs
+  induction hs with
+  | nil => intro i j; left; simp [onion, proj]
+  | cons h rest ih =>
+    intro i j
+    rw [onion_cons]
+    by_cases hji : j = i
+    · -- the handler itself
+      subst hji
+      right
+      refine ⟨h, by simp, Nat.le_refl _, ?_⟩
+      have hR : proj j (onion (j + 1) rest).1 = [] := proj_nil_of_lt rest (j + 1) j (by omega)
+      have hE : proj j [Ev.enter j] = [Ev.enter j] := by simp [proj, Ev.handler]
+      have hL : proj j [Ev.leave j] = [Ev.leave j] := by simp [proj, Ev.handler]
+      simp only [onionStep]
+      split
+      · rename_i pre post hsp
+        obtain ⟨rfl, _⟩ := splitNext_eq h pre post hsp
+        simp only [proj_append, hR, hE, hL, proj_flat_self, List.append_nil, List.map_append,
+          flat_erase, shape_split]
+        simp [Ev.erase, List.append_assoc]
+      · split
+        · simp only [proj_append, hE, hL, proj_flat_self, List.map_append, flat_erase]
+          simp [Ev.erase]
+        · simp only [proj_append, hR, hE, hL, proj_flat_self, List.append_nil, List.map_append, flat_erase]
+          simp [Ev.erase]
+    · -- some other handler: only the rest of the chain can contain its events, and it occurs once
+      have hij : ¬ i = j := fun h => hji h.symm
+      have hE : proj j [Ev.enter i] = [] := by simp [proj, Ev.handler, hij]
+      have hL : proj j [Ev.leave i] = [] := by simp [proj, Ev.handler, hij]
+      have hF : ∀ ab acts, proj j (flat i ab acts).1 = [] := fun ab acts => proj_flat_other i j (Ne.symm hji) ab acts
+      have hRest : proj j (onion (i + 1) rest).1 = [] ∨
+          ∃ h', (h :: rest)[j - i]? = some h' ∧ i ≤ j ∧
+            (proj j (onion (i + 1) rest).1).map Ev.erase = [Ev.enter j] ++ shape j h' ++ [.leave j] := by
+        rcases ih (i + 1) j with h0 | ⟨h', hget, hle, hp⟩
+        · exact Or.inl h0
+        · right
+          refine ⟨h', ?_, by omega, hp⟩
+          have : j - i = (j - (i + 1)) + 1 := by omega
+          rw [this, List.getElem?_cons_succ]; exact hget
+      simp only [onionStep]
+      split
+      · simp only [proj_append, hE, hL, hF, List.nil_append, List.append_nil]
+        exact hRest
+      · split
+        · left; simp only [proj_append, hE, hL, hF, List.append_nil]
+        · simp only [proj_append, hE, hL, hF, List.nil_append]
+          exact hRest
+
+/-! ### 6. everybody calls `Next()`, nobody aborts: leave order is the reverse of the enter order -/
+
+theorem enters_append (a b : List Ev) : enters (a ++ b) = enters a ++ enters b := by
+  induction a with
+  | nil => simp [enters]
+  | cons e rest ih => cases e <;> simp [enters, ih]
+
+theorem leaves_append (a b : List Ev) : leaves (a ++ b) = leaves a ++ leaves b := by
+  induction a with
+  | nil => simp [leaves]
+  | cons e rest ih => cases e <;> simp [leaves, ih]
+
+theorem flat_enters_leaves (i : Nat) : ∀ (acts : List Act) (ab : Bool),
+    enters (flat i ab acts).1 = [] ∧ leaves (flat i ab acts).1 = [] := by
+  intro acts
+  induction acts with
+  | nil => intro ab; simp [flat, enters, leaves]
+  | cons a rest ih =>
+    intro ab
+    simp only [flat, enters_append, leaves_append, ih, List.append_nil]
+    cases a <;> simp [ownEv, enters, leaves]
+
+theorem flat_no_abort (i : Nat) : ∀ (acts : List Act) (ab : Bool), (∀ a ∈ acts, a.isAbort = false) →
+    (flat i ab acts).2 = ab := by
+  intro acts
+  induction acts with
+  | nil => intro ab _; simp [flat]
+  | cons a rest ih =>
+    intro ab h
+    simp only [flat]
+    rw [ownEv_ab_of_not_abort i ab a (h a (by simp)), ih ab (fun x hx => h x (by simp [hx]))]
+
+theorem splitNext_some_of_mem : ∀ (h : List Act), .next ∈ h → (∀ a ∈ h, a.isAbort = false) →
+    ∃ pre post, splitNext h = some (pre, post) := by
+  intro h
+  induction h with
+  | nil => intro hm; simp at hm
+  | cons a rest ih =>
+    intro hm hna
+    by_cases hn : a = .next
+    · exact ⟨[], rest, by simp [splitNext, hn]⟩
+    · have hm' : Act.next ∈ rest := by
+        simp only [List.mem_cons] at hm
+        rcases hm with hm | hm
+        · exact absurd hm.symm hn
+        · exact hm
+      obtain ⟨pre, post, hsp⟩ := ih hm' (fun x hx => hna x (by simp [hx]))
+      exact ⟨a :: pre, post, by simp [splitNext, hn, hna a (by simp), hsp]⟩
+
+/-- nobody aborts and every handler except possibly the last calls `Next()` (any number of times):
+    all handlers start in list order and return in exactly the reverse order -/
+theorem onion_all_next : ∀ (hs : List Handler) (i : Nat),
+    (∀ h ∈ hs, ∀ a ∈ h, a.isAbort = false) → (∀ h ∈ hs.dropLast, Act.next ∈ h) →
+    enters (onion i hs).1 = List.range' i hs.length ∧
+    leaves (onion i hs).1 = (List.range' i hs.length).reverse ∧ (onion i hs).2 = false := by
+  intro hs
+  induction hs with
+  | nil => intro i _ _; simp [onion, enters, leaves]
+  | cons h rest ih =>
+    intro i hna hnx
+    have hna' : ∀ a ∈ h, a.isAbort = false := hna h (by simp)
+    rw [onion_cons]
+    simp only [onionStep]
+    have hrange : List.range' i (h :: rest).length = i :: List.range' (i + 1) rest.length := by
+      simp [List.range'_succ]
+    split
+    · -- h calls Next()
+      rename_i pre post hsp
+      have hrest : ∀ h' ∈ rest.dropLast, Act.next ∈ h' := by
+        intro h' hh'
+        apply hnx
+        cases rest with
+        | nil => simp at hh'
+        | cons r rs => simp only [List.dropLast_cons_cons, List.mem_cons]; exact Or.inr hh'
+      obtain ⟨he, hl, hab⟩ := ih (i + 1) (fun h' hh' => hna h' (by simp [hh'])) hrest
+      obtain ⟨rfl, _⟩ := splitNext_eq h pre post hsp
+      have hpost : ∀ a ∈ post, a.isAbort = false := fun a ha => hna' a (by simp [ha])
+      refine ⟨?_, ?_, ?_⟩
+      · simp only [enters_append, (flat_enters_leaves i _ _).1, he, hrange]
+        simp [enters]
+      · simp only [leaves_append, (flat_enters_leaves i _ _).2, hl, hrange]
+        simp [leaves]
+      · rw [flat_no_abort i post _ hpost, hab]
+    · -- h does not call Next(): it can only be the last handler
+      rename_i hsp
+      have hnone : Act.next ∉ h := by
+        intro hm
+        obtain ⟨pre, post, hs'⟩ := splitNext_some_of_mem h hm hna'
+        rw [hs'] at hsp; simp at hsp
+      have hrestnil : rest = [] := by
+        cases rest with
+        | nil => rfl
+        | cons r rs =>
+          exact absurd (hnx h (by simp)) hnone
+      subst hrestnil
+      rw [flat_no_abort i h false hna']
+      simp only [Bool.false_eq_true, if_false, onion, List.append_nil]
+      refine ⟨?_, ?_, by simp⟩
+      · simp only [enters_append, (flat_enters_leaves i _ _).1]; simp [enters]
+      · simp only [leaves_append, (flat_enters_leaves i _ _).2]; simp [leaves]
+
+/-! ### 7. the writer fold -/
+
+theorem W.run_append (w : W) (a b : List Ev) : W.run w (a ++ b) = W.run (W.run w a) b := by
+  simp [W.run, List.foldl_append]
+
+theorem W.run_cons (w : W) (e : Ev) (t : List Ev) : W.run w (e :: t) = W.run (w.step e) t := by
+  simp [W.run]
+
+/-- without a body write nothing is committed while the handlers run -/
+theorem W.run_no_write : ∀ (tr : List Ev) (w : W), w.committed = none → (∀ e ∈ tr, e.isWrite = false) →
+    (W.run w tr).committed = none := by
+  intro tr
+  induction tr with
+  | nil => intro w h _; simpa [W.run] using h
+  | cons e rest ih =>
+    intro w h hnw
+    rw [W.run_cons]
+    apply ih
+    · have := hnw e (by simp)
+      cases e <;> simp_all [W.step, Ev.isWrite]
+      split <;> simp_all
+    · intro x hx; exact hnw x (by simp [hx])
+
+/-- a status that nobody changes later is the one that gets committed -/
+theorem W.run_keep : ∀ (tr : List Ev) (w : W) (c : Nat), c > 0 → w.status = c →
+    (w.committed = none ∨ w.committed = some c) → (∀ e ∈ tr, e.isStatus = false) →
+    (W.run w tr).status = c ∧ ((W.run w tr).committed = none ∨ (W.run w tr).committed = some c) := by
+  intro tr
+  induction tr with
+  | nil => intro w c _ hs hc _; exact ⟨hs, hc⟩
+  | cons e rest ih =>
+    intro w c hpos hs hc hns
+    rw [W.run_cons]
+    have he := hns e (by simp)
+    apply ih _ c hpos
+    · cases e <;> simp_all [W.step, Ev.isStatus, W.ensure]
+      split <;> simp_all
+      omega
+    · cases e <;> simp_all [W.step, Ev.isStatus, W.ensure]
+      split <;> simp_all
+      omega
+    · intro x hx; exact hns x (by simp [hx])
+
+/-- once committed, the committed status never changes -/
+theorem W.run_committed : ∀ (tr : List Ev) (w : W) (s : Nat), w.committed = some s →
+    (W.run w tr).committed = some s := by
+  intro tr
+  induction tr with
+  | nil => intro w s h; simpa [W.run] using h
+  | cons e rest ih =>
+    intro w s h
+    rw [W.run_cons]
+    apply ih
+    cases e <;> simp_all [W.step, W.ensure]
+    split <;> simp_all
+
+/-- a body write commits -/
+theorem W.run_write : ∀ (tr : List Ev) (w : W), (∃ e ∈ tr, e.isWrite = true) →
+    ∃ s, (W.run w tr).committed = some s := by
+  intro tr
+  induction tr with
+  | nil => intro w h; simp at h
+  | cons e rest ih =>
+    intro w h
+    rw [W.run_cons]
+    by_cases he : e.isWrite = true
+    · have : ∃ s, (w.step e).committed = some s := by
+        cases e <;> simp_all [Ev.isWrite, W.step, W.ensure]
+        cases hc : w.committed <;> simp [hc]
+      obtain ⟨s, hs⟩ := this
+      exact ⟨s, W.run_committed rest _ s hs⟩
+    · apply ih
+      obtain ⟨x, hx, hw⟩ := h
+      simp only [List.mem_cons] at hx
+      rcases hx with rfl | hx
+      · exact absurd hw he
+      · exact ⟨x, hx, hw⟩
 
 end Rux.Chain
